@@ -1,6 +1,7 @@
 package main
 
 import (
+	"os"
 	"fmt"
 	"go/ast"
 	"go/parser"
@@ -1302,6 +1303,11 @@ func (in *inst) loopWrites(l *loopInfo) (keys map[string]*writeShape, anything b
 		}
 	}
 	visit(in.fn, blocks, in.depth)
+	if os.Getenv("TGVC_DEBUG") == "loops" {
+		for k, w := range keys {
+			fmt.Fprintf(os.Stderr, "loop %d of %s: key %s total=%v elems=%v fields=%v cells=%v calleeTotal=%v anything=%v\n", l.ord, in.fn.Name(), k, w.total, w.elems, w.fields, w.cells, w.calleeTotal, anything)
+		}
+	}
 	return keys, anything
 }
 
